@@ -1,4 +1,5 @@
-import FatVerif.Proofs.DirAlias
+import FatVerif.Proofs.DirAliasCount
+import FatVerif.Props.C18
 import FatVerif.Props.C16
 import FatVerif.Props.C15lfn
 import FatVerif.Props.C01dir
@@ -44,21 +45,21 @@ theorem dir_existing_returned_iff (upper : Char → List Char) (slots : List (Li
         | some d => by_cases hd : Lfn.isDir e0.sfn = d <;> simp [hd] at hk; exact hk.symm
       subst hx; simp
   | none =>
-    obtain ⟨g, _, hc⟩ := check_notfound upper slots name isDir (f + 1) hf
+    obtain ⟨g, _, hc⟩ := check_notfound upper slots name isDir (f + 1)
     rw [hc]
-    cases Names.generateLoop (population slots) (f + 1) 0 g with
-    | none => simp [kindResult]
-    | some r => obtain ⟨a, k⟩ := r; simp [kindResult]
+    rcases loop_none_cases upper (listing slots) name.toList isDir hf (f + 1) g with ⟨a, ha⟩ | hh
+    · rw [ha]; simp [kindResult]
+    · rw [hh]; simp [kindResult]
 
 /-! ## (1) freshness -/
 
 /-- if the result is an alias `a`, no LISTED entry has raw short name `a` (in every round nothing matched, so the
-    round's population is the whole listing; `C16.alias_fresh_loop`) -/
+    round's population is the whole listing; `C16.alias_fresh`) -/
 theorem dir_alias_fresh (upper : Char → List Char) (slots : List (List Nat)) (name : String) (isDir : Option Bool)
     (fuel : Nat) (a : List Nat) (h : checkForExistenceL upper slots name isDir fuel = .ok (.alias a)) :
     ∀ e ∈ listing slots, sfnName e.sfn ≠ a := by
-  obtain ⟨_, g, k, hg, hl⟩ := check_alias upper slots name isDir fuel a h
-  have := C16.alias_fresh_loop name g hg (population slots) fuel a k hl
+  obtain ⟨_, g, g', hg, r, hgen, _⟩ := check_alias upper slots name isDir fuel a h
+  have := C16.alias_fresh name g hg g' r (population slots) a hgen
   intro e he heq
   exact this (List.mem_map.2 ⟨e, he, heq⟩)
 
@@ -68,26 +69,47 @@ theorem dir_alias_fresh (upper : Char → List Char) (slots : List (List Nat)) (
 theorem dir_alias_legal (upper : Char → List Char) (slots : List (List Nat)) (name : String) (isDir : Option Bool)
     (fuel : Nat) (a : List Nat) (hv : Names.validateLongName name = .ok ())
     (h : checkForExistenceL upper slots name isDir fuel = .ok (.alias a)) : Names.LegalAlias a := by
-  obtain ⟨_, g, k, hg, hl⟩ := check_alias upper slots name isDir fuel a h
-  refine C16.alias_legal_loop name ?_ g hg (population slots) fuel a k hl
-  rintro rfl; cases hv
+  obtain ⟨_, g, g', hg, r, hgen, _⟩ := check_alias upper slots name isDir fuel a h
+  refine C16.alias_legal name hv g hg _ (r.addAll (population slots)) a hgen
 
-/-- for every name (also the empty one) the alias has 11 bytes -/
+/-- for every name (also the empty one) the alias has the canonical shape (two padded fields of legal bytes), hence 11
+    bytes, and its display form is ASCII -/
+theorem dir_alias_canon (upper : Char → List Char) (slots : List (List Nat)) (name : String) (isDir : Option Bool)
+    (fuel : Nat) (a : List Nat) (h : checkForExistenceL upper slots name isDir fuel = .ok (.alias a)) :
+    Canon a ∧ a.length = 11 ∧ displayAscii a = true := by
+  obtain ⟨_, g, g', hg, r, hgen, _⟩ := check_alias upper slots name isDir fuel a h
+  have hw := (r.addAll (population slots)).wf (Names.newL_wf hg)
+  have hc := generate_canon hw hgen
+  exact ⟨hc, generate_length hw hgen, displayAscii_of_canon hc⟩
+
 theorem dir_alias_length (upper : Char → List Char) (slots : List (List Nat)) (name : String) (isDir : Option Bool)
     (fuel : Nat) (a : List Nat) (h : checkForExistenceL upper slots name isDir fuel = .ok (.alias a)) :
-    a.length = 11 := by
-  obtain ⟨_, g, k, hg, hl⟩ := check_alias upper slots name isDir fuel a h
-  obtain ⟨g', r, hgen⟩ := Names.loop_result (population slots) fuel 0 g g Names.Reach.refl hl
-  exact generate_length ((r.addAll _).wf (Names.newL_wf hg)) hgen
+    a.length = 11 := (dir_alias_canon upper slots name isDir fuel a h).2.1
+
+/-- **the repair of F23**: no listed entry answers to the display form of the returned alias — neither by its long
+    name nor by its own alias, ignoring case (every name, every `upper`) -/
+theorem dir_alias_display_free (upper : Char → List Char) (slots : List (List Nat)) (name : String)
+    (isDir : Option Bool) (fuel : Nat) (a : List Nat)
+    (h : checkForExistenceL upper slots name isDir fuel = .ok (.alias a)) :
+    ∀ e ∈ listing slots, matchesName upper e (Names.aliasDisplay a) = false := by
+  obtain ⟨_, g, g', hg, r, hgen, hd⟩ := check_alias upper slots name isDir fuel a h
+  exact (findEntry_none_iff upper slots _).1 (hd (dir_alias_canon upper slots name isDir fuel a h).2.2)
 
 /-! ## (3) termination -/
 
-/-- on a directory listing fewer than 9·65536 entries, any fuel above `n/9` (so in particular `n/9 + 2`, and the
-    70000 of `DirOps.checkForExistence`) never yields the fuel-exhaustion outcome: the result is an existing entry,
-    `InvalidInput`, or an alias found after at most `n/9` calls of `next_iteration` -/
-theorem dir_alias_terminates (upper : Char → List Char) (slots : List (List Nat)) (name : String)
-    (isDir : Option Bool) (fuel : Nat) (hn : (listing slots).length < 9 * 65536)
-    (hfuel : (listing slots).length / 9 < fuel) :
+/-- **termination of the repaired loop.**  Hypothesis on the case folding: it leaves the characters of short names
+    (`A–Z 0–9 ! # $ % & ' ( ) - @ ^ _ ` { } ~` and `.`) alone — true of `to_ascii_uppercase` and of
+    `char::to_uppercase` (`upperAscii_fixes`); without it one entry could answer to every candidate.
+    On a directory listing `n < 3·65536` entries, fuel `15·(n/3) + 15` never yields the fuel-exhaustion outcome: the
+    result is an existing entry, `InvalidInput`, or an alias.
+    Accounting: every `continue` marks a so far unmarked candidate of the current checksum epoch (1 exact + 4 `~N` + 9
+    hash forms, so ≤ 14 `continue`s and one failing round per epoch); an epoch fails only if its nine hash candidates
+    are marked, each by a listed raw short name parsing to that checksum or by a candidate a listed entry answers to;
+    different epochs (< 65536) have different checksums, an entry supplies at most three such marks (raw name, long
+    name, alias) over the whole run: at most `n/3` failed epochs. -/
+theorem dir_alias_terminates (upper : Char → List Char) (hup : UpperFixes upper) (slots : List (List Nat))
+    (name : String) (isDir : Option Bool) (fuel : Nat) (hn : (listing slots).length < 3 * 65536)
+    (hfuel : 15 * ((listing slots).length / 3) + 15 ≤ fuel) :
     checkForExistenceL upper slots name isDir fuel ≠ .error .hang ∧
     ((∃ e, checkForExistenceL upper slots name isDir fuel = .ok (.entry e)) ∨
      checkForExistenceL upper slots name isDir fuel = .error .invalidInput ∨
@@ -106,19 +128,102 @@ theorem dir_alias_terminates (upper : Char → List Char) (slots : List (List Na
         | some d => by_cases hd : Lfn.isDir e0.sfn = d <;> simp [hd] at hk; exact hk.symm
       subst hx; exact ⟨by simp, Or.inr (Or.inl rfl)⟩
   | none =>
-    obtain ⟨g, hg, hc⟩ := check_notfound upper slots name isDir (f + 1) hf
-    have hp : (population slots).length = (listing slots).length := by simp [population]
-    obtain ⟨a, k, hl, _⟩ := C16.alias_terminates name g hg (population slots) (by rw [hp]; exact hn) (f + 1)
-      (by rw [hp]; exact hfuel)
-    rw [hc, hl]
-    exact ⟨by simp, Or.inr (Or.inr ⟨a, rfl⟩)⟩
+    obtain ⟨g, hg, hc⟩ := check_notfound upper slots name isDir (f + 1)
+    have hnh := loop_no_hang upper hup (listing slots) name.toList isDir hf g (Names.newL_wf hg)
+      (Names.newL_bitmaps hg).2.1 hn (f + 1) hfuel
+    rw [hc]
+    rcases loop_none_cases upper (listing slots) name.toList isDir hf (f + 1) g with ⟨a, ha⟩ | hh
+    · exact ⟨hnh, Or.inr (Or.inr ⟨a, ha⟩)⟩
+    · exact absurd hh hnh
 
-/-- the coordinator's form: fuel ≥ n/9 + 2 -/
-theorem dir_alias_no_hang (upper : Char → List Char) (slots : List (List Nat)) (name : String)
-    (isDir : Option Bool) (fuel : Nat) (hn : (listing slots).length < 9 * 65536)
-    (hfuel : (listing slots).length / 9 + 2 ≤ fuel) :
-    checkForExistenceL upper slots name isDir fuel ≠ .error .hang :=
-  (dir_alias_terminates upper slots name isDir fuel hn (by omega)).1
+/-- the hypothesis on the case folding cannot be dropped: under the (absurd) folding that maps every character to `X`
+    names are compared by length only; two entries with long names of 4 and 8 characters then answer to every `~N` and
+    every hash candidate of `"b c"`, and the repaired loop never ends (here: 200 rounds) -/
+def upperConst (_ : Char) : List Char := ['X']
+def dirX : List (List Nat) :=
+  writeEntry (writeEntry [C01.zero] (Names.encodeUtf16 "wxyz".toList) (C01.sfnOf "QQQQQ      "))
+    (Names.encodeUtf16 "stuvwxyz".toList) (C01.sfnOf "RRRRR      ")
+example : checkForExistenceL upperConst dirX "b c" none 200 = .error .hang ∧
+    checkForExistenceL Names.upperAscii dirX "b c" none 200 = .ok (.alias ("BC~1       ".toList.map Char.toNat)) := by
+  decide +kernel
+
+/-- both build variants satisfy the hypothesis on the case folding: the ASCII one here, any table in which the
+    characters of short names are their own upper case likewise -/
+example : UpperFixes Names.upperAscii := upperAscii_fixes
+
+
+/-! ## the looked-up string is `ShortName::new(&alias).as_bytes()` -/
+
+theorem fixE5_eq (s : List Nat) :
+    Names.fixE5 s = (match s with | 5 :: t => 0xE5 :: t | _ => s) := by
+  unfold Names.fixE5
+  split
+  · rfl
+  · rename_i hne
+    split
+    · rename_i t; exact absurd rfl (hne t)
+    · rfl
+
+theorem rstrip_take (l : List Nat) : C18.specRstrip l = l.take (Names.fieldLen l) := by
+  unfold C18.specRstrip Names.fieldLen
+  have h := List.takeWhile_append_dropWhile (p := (· == 32)) (l := l.reverse)
+  have hl : l = (l.reverse.dropWhile (· == 32)).reverse ++ (l.reverse.takeWhile (· == 32)).reverse := by
+    have := congrArg List.reverse h
+    rw [List.reverse_append, List.reverse_reverse] at this
+    exact this.symm
+  conv => rhs; arg 2; rw [hl]
+  rw [List.take_left' (by simp)]
+
+/-- the model's display bytes are the specification's (`C18.specShortName`), hence (`C18.shortName_spec`) exactly
+    `ShortName::new(raw).as_bytes()` of the dir-entry model that `DirOps.checkForExistenceLoop` uses -/
+theorem shortDisplay_eq_shortName (raw : List Nat) (h : raw.length = 11) :
+    Names.shortDisplay raw = (ShortName.new raw).asBytes := by
+  have e := C18.shortName_spec raw h
+  unfold FatVerif.shortDisplay at e
+  rw [e]
+  unfold Names.shortDisplay C18.specShortName
+  have d3 : (raw.drop 8).take 3 = raw.drop 8 := List.take_of_length_le (by simp; omega)
+  have t1 : raw.take (Names.fieldLen (raw.take 8)) = C18.specRstrip (raw.take 8) := by
+    rw [rstrip_take, List.take_take]
+    congr 1
+    have : Names.fieldLen (raw.take 8) ≤ (raw.take 8).length := by
+      unfold Names.fieldLen
+      have := (List.dropWhile_sublist (fun x => x == 32) (l := (raw.take 8).reverse)).length_le
+      simpa using this
+    simp at this
+    omega
+  have t2 : (raw.drop 8).take (Names.fieldLen (raw.drop 8)) = C18.specRstrip (raw.drop 8) := (rstrip_take _).symm
+  simp only [d3, t1, t2]
+  have hlen : (C18.specRstrip (raw.drop 8)).length = Names.fieldLen (raw.drop 8) := by
+    unfold C18.specRstrip Names.fieldLen; simp
+  by_cases hz : Names.fieldLen (raw.drop 8) = 0
+  · have he : C18.specRstrip (raw.drop 8) = [] := List.eq_nil_of_length_eq_zero (by rw [hlen, hz])
+    simp only [hz, Nat.lt_irrefl, if_false, he, List.isEmpty_nil, if_true, List.append_nil]
+    exact fixE5_eq _
+  · have he : C18.specRstrip (raw.drop 8) ≠ [] := by
+      intro h0; rw [h0] at hlen; simp at hlen; omega
+    have hpos : Names.fieldLen (raw.drop 8) > 0 := by omega
+    simp only [hpos, if_true, List.isEmpty_iff, he, if_false, List.append_assoc, List.singleton_append]
+    exact fixE5_eq _
+
+/-- for a generated alias the string `DirOps` looks up, `String.ofList ((ShortName.new a).asBytes.map Char.ofNat)`, is
+    `Names.aliasDisplay a`, and its guard (`all (· < 128)`, i.e. `str::from_utf8` succeeds) holds -/
+theorem alias_lookup_string (upper : Char → List Char) (slots : List (List Nat)) (name : String) (isDir : Option Bool)
+    (fuel : Nat) (a : List Nat) (h : checkForExistenceL upper slots name isDir fuel = .ok (.alias a)) :
+    (ShortName.new a).asBytes.all (· < 128) = true ∧
+    (String.ofList ((ShortName.new a).asBytes.map Char.ofNat)).toList = Names.aliasDisplay a := by
+  obtain ⟨_, hl, hd⟩ := dir_alias_canon upper slots name isDir fuel a h
+  rw [← shortDisplay_eq_shortName a hl]
+  refine ⟨hd, ?_⟩
+  rw [String.toList_ofList]
+  unfold Names.aliasDisplay
+  apply List.map_congr_left
+  intro y hy
+  unfold displayAscii at hd
+  have := List.all_eq_true.1 hd y hy
+  simp only [decide_eq_true_eq] at this
+  unfold Names.oemDecode
+  rw [if_pos (by omega)]
 
 /-! ## (4) the alias is tied to its long name by the checksum -/
 
@@ -151,10 +256,11 @@ theorem dir_alias_checksum (upper : Char → List Char) (slots : List (List Nat)
   obtain ⟨r1, _, _, _, r5, _⟩ := lfn_run_wf (Names.encodeUtf16 name.toList) (lfnChecksum a) h1 h255 hu
   refine ⟨hs, by unfold entrySlots; rw [hs], r1, lfnGenerate_chk _ _ h1 h255 hu, r5⟩
 
-/-! ## (6) towards `writeEntry_dirWf` -/
+/-! ## (6) creating the entry keeps the directory well-formed -/
 
-/-- the alias `check_for_existence` returns discharges the first two freshness hypotheses of `writeEntry_dirWf`
-    (`find_entry … name = none`; raw short name new), and the side conditions on the units and the slot class -/
+/-- the alias `check_for_existence` returns discharges ALL freshness hypotheses of `writeEntry_dirWf`
+    (`find_entry … name = none`; raw short name new; no listed entry answers to the alias's display form), and the side
+    conditions on the units and the slot class -/
 theorem dir_create_hyps (upper : Char → List Char) (slots : List (List Nat)) (name : String) (isDir : Option Bool)
     (fuel : Nat) (a : List Nat) (attr : Nat) (rest : List Nat) (hv : Names.validateLongName name = .ok ())
     (hattr : attr % 64 / 8 % 2 = 0)
@@ -164,27 +270,26 @@ theorem dir_create_hyps (upper : Char → List Char) (slots : List (List Nat)) (
     (∀ x ∈ Names.encodeUtf16 name.toList, x < 65536) ∧ (∀ x ∈ Names.encodeUtf16 name.toList, x ≠ 0) ∧
     slotClass (sfnWith a (attr :: rest)) = .file ∧
     findEntry upper slots name.toList = none ∧
-    (∀ e ∈ listing slots, sfnName e.sfn ≠ sfnName (sfnWith a (attr :: rest))) := by
+    (∀ e ∈ listing slots, sfnName e.sfn ≠ sfnName (sfnWith a (attr :: rest))) ∧
+    (∀ e ∈ listing slots, matchesName upper e (Names.aliasDisplay (sfnName (sfnWith a (attr :: rest)))) = false) := by
   obtain ⟨v0, _, v1, v2, v3, v4⟩ := valid_units (cs := name.toList) hv
   have hleg := dir_alias_legal upper slots name isDir fuel a hv h
-  refine ⟨v0, v1, v2, v3, v4, slotClass_sfnWith a attr rest hleg hattr, (check_alias upper slots name isDir fuel a h).1, ?_⟩
-  rw [sfnName_sfnWith a _ hleg.1]
-  exact dir_alias_fresh upper slots name isDir fuel a h
+  refine ⟨v0, v1, v2, v3, v4, slotClass_sfnWith a attr rest hleg hattr, (check_alias upper slots name isDir fuel a h).1, ?_, ?_⟩
+  · rw [sfnName_sfnWith a _ hleg.1]
+    exact dir_alias_fresh upper slots name isDir fuel a h
+  · rw [sfnName_sfnWith a _ hleg.1]
+    exact dir_alias_display_free upper slots name isDir fuel a h
 
-/-- creating the entry keeps the directory well-formed PROVIDED no listed entry answers to the display form of the
-    new alias. That third hypothesis is forced: the scan compared every entry with the QUERY, never with the alias it
-    was about to choose (`dir_alias_display_collision_counterexample`). -/
-theorem dir_create_wf_partial (upper : Char → List Char) (slots : List (List Nat)) (name : String)
+/-- **full strength** (holds since the repair of F23): on a well-formed directory, writing the entry for a valid
+    name with the alias `check_for_existence` returned (any body whose attribute byte has no VOLUME_ID bit) gives a
+    well-formed directory again — no duplicate raw short names, no two entries answering to one query. -/
+theorem dir_create_wf (upper : Char → List Char) (slots : List (List Nat)) (name : String)
     (isDir : Option Bool) (fuel : Nat) (a : List Nat) (attr : Nat) (rest : List Nat)
     (hwf : DirWf upper slots) (hv : Names.validateLongName name = .ok ()) (hattr : attr % 64 / 8 % 2 = 0)
-    (h : checkForExistenceL upper slots name isDir fuel = .ok (.alias a))
-    (halias : ∀ e ∈ listing slots, matchesName upper e (Names.aliasDisplay a) = false) :
+    (h : checkForExistenceL upper slots name isDir fuel = .ok (.alias a)) :
     DirWf upper (writeEntry slots (Names.encodeUtf16 name.toList) (sfnWith a (attr :: rest))) := by
-  obtain ⟨c0, c1, c2, c3, c4, c5, c6, c7⟩ := dir_create_hyps upper slots name isDir fuel a attr rest hv hattr h
-  have hleg := dir_alias_legal upper slots name isDir fuel a hv h
-  refine writeEntry_dirWf upper slots name.toList _ hwf c0 c1 c2 c3 c4 c5 c6 c7 ?_
-  rw [sfnName_sfnWith a _ hleg.1]
-  exact halias
+  obtain ⟨c0, c1, c2, c3, c4, c5, c6, c7, c8⟩ := dir_create_hyps upper slots name isDir fuel a attr rest hv hattr h
+  exact writeEntry_dirWf upper slots name.toList _ hwf c0 c1 c2 c3 c4 c5 c6 c7 c8
 
 /-- the third hypothesis spelled out: no listed entry's LONG name folds like the display form of the new alias, and no
     listed entry's own alias display folds like it (the second part is not implied by raw-name freshness either when
@@ -209,7 +314,7 @@ theorem dir_alias_display_hyp_iff (upper : Char → List Char) (slots : List (Li
   · rintro ⟨h1, h2⟩ e he
     exact (key e).2 (fun hc => hc.elim (h1 e he) (h2 e he))
 
-/-! ## examples and the counterexample for the third hypothesis -/
+/-! ## examples and the F23 regression -/
 
 /-- directory with entry `A` and an entry whose long name is `test~1` but whose raw short name is `ABC` (possible on a
     volume written by another implementation; well-formed in every sense of `DirWf`) -/
@@ -229,6 +334,7 @@ theorem dirB_wf : DirWf Names.upperAscii dirB := by
 
 def body20 : List Nat := 0x20 :: List.replicate 20 0
 def aliasTest1 : List Nat := "TEST~1     ".toList.map Char.toNat
+def aliasTest2 : List Nat := "TEST~2     ".toList.map Char.toNat
 
 /-- satisfiability of (1)–(5): looking up / creating in `dirB` -/
 example :
@@ -259,25 +365,30 @@ theorem keys_filter_le_one (upper : Char → List Char) (q : List Char) :
       simp only [List.filter_cons, hm, if_true, this]; simp
     · simp only [List.filter_cons, hm, Bool.false_eq_true, if_false]; exact ih
 
-/-- **The third hypothesis of `writeEntry_dirWf` does not follow from the scan.**  In the well-formed directory `dirB`
-    the name `"te st"` is not found, the generator returns the fresh, legal alias `TEST~1`, whose display form
-    `TEST~1` is — ignoring case — the LONG name of the listed entry `ABC`; after the entry is written, the query
-    `test~1` answers to two entries (the old one by long name, the new one by alias) and the directory is no longer
-    well-formed. -/
-theorem dir_alias_display_collision_counterexample :
+/-- **F23 regression (foreign directory).**  In `dirB` the long name `test~1` belongs to the entry `ABC`.  Creating
+    `"te st"`: the first candidate `TEST~1` is answered by that long name, so it is fed back and the NEXT candidate
+    `TEST~2` is returned (one extra round); writing the entry leaves exactly one entry answering to `test~1` and one to
+    `test~2`, and the directory stays well-formed (before commit 4df4d32: alias `TEST~1`, two entries answering to
+    `test~1`). -/
+theorem dir_alias_display_collision_regression :
     DirWf Names.upperAscii dirB ∧ Names.validateLongName "te st" = .ok () ∧
-    checkForExistenceL Names.upperAscii dirB "te st" (some false) 3 = .ok (.alias aliasTest1) ∧
-    (∃ e ∈ listing dirB, matchesName Names.upperAscii e (Names.aliasDisplay aliasTest1) = true) ∧
-    ((listing (writeEntry dirB (Names.encodeUtf16 "te st".toList) (sfnWith aliasTest1 body20))).filter
-      fun e => matchesName Names.upperAscii e "test~1".toList).length = 2 ∧
-    ¬ DirWf Names.upperAscii (writeEntry dirB (Names.encodeUtf16 "te st".toList) (sfnWith aliasTest1 body20)) := by
-  have h5 : ((listing (writeEntry dirB (Names.encodeUtf16 "te st".toList) (sfnWith aliasTest1 body20))).filter
-      fun e => matchesName Names.upperAscii e "test~1".toList).length = 2 := by decide +kernel
-  refine ⟨dirB_wf, rfl, by decide +kernel, ?_, h5, ?_⟩
-  · refine ⟨⟨C01.sfnOf "ABC        ", Names.encodeUtf16 "test~1".toList, 1, 3⟩, by decide +kernel, by decide +kernel⟩
-  · intro hwf
-    have := keys_filter_le_one Names.upperAscii "test~1".toList _ hwf.keys
-    omega
+    checkForExistenceL Names.upperAscii dirB "te st" (some false) 3 = .ok (.alias aliasTest2) ∧
+    checkForExistenceL Names.upperAscii dirB "te st" (some false) 1 = .error .hang ∧
+    ((listing (writeEntry dirB (Names.encodeUtf16 "te st".toList) (sfnWith aliasTest2 body20))).filter
+      fun e => matchesName Names.upperAscii e "test~1".toList).length = 1 ∧
+    ((listing (writeEntry dirB (Names.encodeUtf16 "te st".toList) (sfnWith aliasTest2 body20))).filter
+      fun e => matchesName Names.upperAscii e "test~2".toList).length = 1 ∧
+    DirWf Names.upperAscii (writeEntry dirB (Names.encodeUtf16 "te st".toList) (sfnWith aliasTest2 body20)) := by
+  have h3 : checkForExistenceL Names.upperAscii dirB "te st" (some false) 3 = .ok (.alias aliasTest2) := by
+    decide +kernel
+  refine ⟨dirB_wf, rfl, h3, by decide +kernel, by decide +kernel, by decide +kernel, ?_⟩
+  exact dir_create_wf Names.upperAscii dirB "te st" (some false) 3 aliasTest2 0x20 (List.replicate 20 0) dirB_wf rfl
+    (by decide) h3
+
+/-- `dir_alias_terminates` instantiated: two listed entries, fuel 15 -/
+example : checkForExistenceL Names.upperAscii dirB "te st" (some false) 15 ≠ .error .hang :=
+  (dir_alias_terminates Names.upperAscii upperAscii_fixes dirB "te st" (some false) 15 (by decide +kernel)
+    (by decide +kernel)).1
 
 /-- a case folding that, like `char::to_uppercase` (feature `unicode`), maps U+017F LATIN SMALL LETTER LONG S to `S` -/
 def upperLongS (c : Char) : List Char := if c = 'ſ' then ['S'] else Names.upperAscii c
@@ -285,42 +396,18 @@ def upperLongS (c : Char) : List Char := if c = 'ſ' then ['S'] else Names.upper
 def dirS1 : List (List Nat) :=
   writeEntry [C01.zero] (Names.encodeUtf16 "teſt~1".toList) (sfnWith ("TE_T~1~1   ".toList.map Char.toNat) body20)
 def dirS2 : List (List Nat) :=
-  writeEntry dirS1 (Names.encodeUtf16 "te st".toList) (sfnWith aliasTest1 body20)
+  writeEntry dirS1 (Names.encodeUtf16 "te st".toList) (sfnWith aliasTest2 body20)
 
-/-- the same collision reached through creating calls only, from an EMPTY directory, under a case folding with
-    `ſ ↦ S`: create `"teſt~1"` (alias `TE_T~1~1`), then create `"te st"` (not found; alias `TEST~1`); now `test~1`
-    answers to both entries.  Reproduced on the real library (build with feature `unicode`) with
-    `create_file("teſt~1")`, `create_file("te st")`: `open_file("test~1")` opens the FIRST file although `TEST~1` is the
-    second file's alias, and `remove("TEST~1")` removes the first. -/
-theorem dir_alias_collision_reachable_counterexample :
+/-- **F23 regression (reachable through creating calls, case folding with `ſ ↦ S`).**  Create `"teſt~1"` (alias
+    `TE_T~1~1`), then `"te st"`: the candidate `TEST~1` is answered by the first entry's long name, the alias becomes
+    `TEST~2`; `test~1` answers to exactly one entry. -/
+theorem dir_alias_collision_reachable_regression :
     checkForExistenceL upperLongS [C01.zero] "teſt~1" (some false) 3 =
       .ok (.alias ("TE_T~1~1   ".toList.map Char.toNat)) ∧
-    checkForExistenceL upperLongS dirS1 "te st" (some false) 3 = .ok (.alias aliasTest1) ∧
-    ((listing dirS2).filter fun e => matchesName upperLongS e "test~1".toList).length = 2 ∧
-    (findEntry upperLongS dirS2 "test~1".toList).map (·.units) = some (Names.encodeUtf16 "teſt~1".toList) ∧
-    ¬ DirWf upperLongS dirS2 := by
-  have h3 : ((listing dirS2).filter fun e => matchesName upperLongS e "test~1".toList).length = 2 := by
-    decide +kernel
-  refine ⟨by decide +kernel, by decide +kernel, h3, by decide +kernel, ?_⟩
-  intro hwf
-  have := keys_filter_le_one upperLongS "test~1".toList _ hwf.keys
-  omega
-
-/-- with the extra hypothesis the write is fine: creating `"a b"` (alias `AB~1`) in `dirB` -/
-example : DirWf Names.upperAscii
-    (writeEntry dirB (Names.encodeUtf16 "a b".toList) (sfnWith ("AB~1       ".toList.map Char.toNat) body20)) := by
-  refine dir_create_wf_partial Names.upperAscii dirB "a b" none 3 _ 0x20 (List.replicate 20 0) dirB_wf rfl
-    (by decide) (by decide +kernel) ?_
-  have hl : (listing dirB).map (fun e => (e.units, sfnName e.sfn)) =
-      [([], sfnName (C01.sfnOf "A          ")), (Names.encodeUtf16 "test~1".toList, sfnName (C01.sfnOf "ABC        "))] := by
-    decide +kernel
-  intro e he
-  have : (e.units, sfnName e.sfn) ∈ (listing dirB).map (fun e => (e.units, sfnName e.sfn)) :=
-    List.mem_map.2 ⟨e, he, rfl⟩
-  rw [hl] at this
-  simp only [List.mem_cons, Prod.mk.injEq, List.not_mem_nil, or_false] at this
-  unfold matchesName
-  rcases this with ⟨h1, h2⟩ | ⟨h1, h2⟩ <;> rw [h1, h2] <;> decide +kernel
+    checkForExistenceL upperLongS dirS1 "te st" (some false) 3 = .ok (.alias aliasTest2) ∧
+    ((listing dirS2).filter fun e => matchesName upperLongS e "test~1".toList).length = 1 ∧
+    (findEntry upperLongS dirS2 "test~2".toList).map (·.units) = some (Names.encodeUtf16 "te st".toList) := by
+  decide +kernel
 
 end C16dir
 end FatVerif
